@@ -2,8 +2,10 @@
 """Copy a confirmed seeded change into /verif/seeded/<Cxx>-<n>/ with its meta (what it needs, what was run, detection)."""
 import json, os, shutil, sys
 cid, n = sys.argv[1], sys.argv[2]
-out = "/tmp/seed/%s-out" % cid
-dst = "/verif/seeded/%s-%s" % (cid, n)
+BASE = os.environ.get("SEED_BASE", "/tmp/seed")
+out = "%s/%s-out" % (BASE, cid)
+SUF = os.environ.get("SEED_SUFFIX", "")
+dst = "/verif/seeded/%s-%s%s" % (cid, SUF, n)
 os.makedirs(dst, exist_ok=True)
 shutil.copy("%s/patch%s.diff" % (out, n), dst + "/patch.diff")
 if os.path.isdir(dst + "/demo"):
